@@ -306,7 +306,7 @@ def gen_case(rng, nops, pairs=True):
 
 
 def gen(rng, tier):
-    n = {"quick": 70, "thorough": 1200, "search": 250}[tier]
+    n = {"quick": 140, "thorough": 1500, "search": 250}[tier]
     return [gen_case(rng, rng.range(3, 9 if tier == "quick" else 14)) for _ in range(n)]
 
 
